@@ -681,6 +681,7 @@ def _stress(ctx, part, info):
                "plain-sink-does-not-show-its-pipeline's-view" if "does not show the plaintext" in x else
                "pipeline-outcome-depends-on-the-other-pipelines-of-the-shared-event" if "this pipeline's sink" in x or "did not report sink" in x or "rejects every event holds" in x else
                "rebound-file-sinks-not-all-reopened" if "rebind-reopen:" in x else
+               "file-sink-keeps-writing-to-the-rotated-away-file" if "logrotate-create:" in x else
                "cloudevents-unsigned-after-signer-installed" if "late signer:" in x else
                "sink-shows-another-pipeline's-formatting-of-the-shared-event" if "formatting of the shared event:" in x else
                "file-sink-loses-or-duplicates-acknowledged-events" if "acknowledged events" in x else
